@@ -114,3 +114,40 @@ def area_json(area):
 
 def area_from_json(a):
     return Area((a[0][0], a[0][1]), (a[1][0], a[1][1]))
+
+
+def history_state(rng, hmax=7, wmax=7):
+    """a state *reached through the real dynamics*: random door/box/key-rich state, then 1-5 real steps of the
+    full built-in chain biased towards ACTUATE / PICK_N_DROP on whatever is in front (doors get opened in place,
+    boxes replaced by their content, keys change hands).  Objects of the result are the ones the dynamics mutated."""
+    import numpy as np
+    from gym_gridverse.action import Action
+    from gym_gridverse.envs import transition_functions as transition_fs
+    types = [Floor, Wall, Door, Key, Box, Exit, MovingObstacle, Telepod, Beacon]
+    state, cat = gen.rand_state(rng, types, gen.COLORS, hmax=hmax, wmax=wmax, p_floor=0.4)
+    reg = transition_fs.transition_function_registry
+    names = ['move_agent', 'turn_agent', 'actuate_door', 'actuate_box', 'pickndrop', 'move_obstacles', 'teleport']
+    nprng = np.random.default_rng(rng.randrange(2**32))
+    for _ in range(rng.randint(1, 5)):
+        fy, fx = gen.front_of(state)
+        if gen.in_grid(state, fy, fx) and rng.random() < 0.5:
+            # put something actionable in front so that in-place updates actually happen
+            c = rng.choice(gen.COLORS)
+            state.grid[fy, fx] = rng.choice([Door(Door.Status.CLOSED, c), Door(Door.Status.LOCKED, c), Box(Door(Door.Status.CLOSED, c)),
+                                             Key(c)])
+            if rng.random() < 0.5:
+                state.agent.grid_object = Key(c)
+            action = rng.choice([Action.ACTUATE, Action.ACTUATE, Action.PICK_N_DROP])
+        else:
+            action = rng.choice(list(Action))
+        try:
+            state = transition_fs.transition_with_copy(
+                lambda s, a, rng=None: [reg[n](s, a, rng=rng) for n in names], state, action, rng=nprng)
+        except Exception:
+            break
+    return state
+
+
+def rebuilt(state):
+    """freshly constructed deep copy (through JSON): carries no history"""
+    return enc.state_from_json(enc.state_to_json(state))
